@@ -66,6 +66,19 @@ Theorem C20_flush_bounded : forall cap l1 c l2 s1 s2 s,
   forall e, In e (rets_of l1) -> In e (writes_of (l1 ++ Request c :: l2)).
 Proof. exact FlushProofs.flush_bounded. Qed.
 
+(* The log level (rogger.SetLevel at any time, by any goroutine) is a guard on the ACCEPT step of a levelled logging call and
+   is consulted nowhere else: all theorems above quantify over schedules with SetLevel / filtered calls anywhere, so what was
+   accepted is written whatever the level becomes afterwards; WriteLog / Trace (LogCall) have no level guard *)
+Theorem C20_accept_guard : forall cap s e l s',
+  step cap s (LogCallAt e l) = Some s' -> lvl s <= l /\ step cap s (LogCall e) = Some s'.
+Proof. exact FlushProofs.accept_guard. Qed.
+Theorem C20_filtered_call_submits_nothing : forall cap s g l s',
+  step cap s (LogFiltered g l) = Some s' -> l < lvl s /\ s' = s.
+Proof. exact FlushProofs.filtered_call_submits_nothing. Qed.
+Theorem C20_level_consulted_only_at_accept : forall cap s n l, level_blind l = true ->
+  step cap (with_lvl s n) l = match step cap s l with Some s' => Some (with_lvl s' n) | None => None end.
+Proof. exact FlushProofs.level_consulted_only_at_accept. Qed.
+
 (* FlushLogger is one-shot (known finding "second flush"). The model lets FlushLogger be called again, as the code
    does; without "first call" the completeness statement is FALSE of the faithful model and of the code: *)
 Definition C20_flush_complete_any_call_statement : Prop := forall cap l1 c l2 c' l3 s,
@@ -129,3 +142,6 @@ Print Assumptions C20_flush_complete_any_call_refuted.
 Print Assumptions C20_second_flush_refuted.
 Print Assumptions C20_flush_complete_first_call.
 Print Assumptions C20_all_before_ack_written.
+Print Assumptions C20_accept_guard.
+Print Assumptions C20_filtered_call_submits_nothing.
+Print Assumptions C20_level_consulted_only_at_accept.
